@@ -55,6 +55,8 @@ pub fn run_sharded(def: &PropDef, tier: Tier) -> RunResult {
         Tier::Quick => def.cap_s.0,
         Tier::Thorough => def.cap_s.1,
     };
+    // measurement aid (never set by a registered command): VCHECK_CAP_S overrides the wall-clock cap
+    let cap_s = std::env::var("VCHECK_CAP_S").ok().and_then(|v| v.parse().ok()).unwrap_or(cap_s);
     let exe = std::env::current_exe().expect("current_exe");
     let tmpdir = format!("{}/target/vcheck-tmp/{}-{}", super::root(), def.id, std::process::id());
     let _ = std::fs::create_dir_all(&tmpdir);
